@@ -207,6 +207,7 @@ def correspondence(ctx):
                                    '>=2^32' if int(vs) >= 1 << 32 else 'small'))
         ctx.sample({'fmt': p.img.fmt, 'tag': p.img.tag, 'params': p.img.params, 'length': len(p.img.data),
                     'chunking': p.ctag, 'declared': p.img.declared, 'implementation': v}, 6)
+    G.add_companions(pairs, rng, 0.2)
     out = G.run_pairs(ctx, pairs, on)
     ctx.notes.append('model cost units spent: %d' % spent)
     # sparse streams (driver request inspx: zero gaps are skipped by the model, Props/C01Locality): metadata regions
@@ -228,7 +229,7 @@ def correspondence(ctx):
 # --------------------------------------------------------------------------
 # failing-input search (implementation only): virtual_size == the size the builder encoded
 
-def vsize_of(fmt, data, sizes, poll=None, feed='bytes', ctor=None):
+def vsize_of(fmt, data, sizes, poll=None, feed='bytes', ctor=None, companion=None):
     """final virtual_size; `poll` = 'all' or a set of chunk indices after which every public observer
     (virtual_size, format_match, complete, context_info, safety_check ...) is queried during the feed;
     `feed` / `ctor`: how the chunks are presented and how the inspector is constructed (insp_gen.Feeder)"""
@@ -240,7 +241,7 @@ def vsize_of(fmt, data, sizes, poll=None, feed='bytes', ctor=None):
             if poll == 'all' or k[0] in poll:
                 insp_impl.poke(i)
             k[0] += 1
-    return G.vfield(G.impl_run(fmt, data, sizes, query=q, feed=feed, ctor=ctor)[1], 'vsize')
+    return G.vfield(G.impl_run(fmt, data, sizes, query=q, feed=feed, ctor=ctor, companion=companion)[1], 'vsize')
 
 
 def allowed_subset(fmt, rng):
@@ -248,15 +249,23 @@ def allowed_subset(fmt, rng):
                        sorted(set([fmt] + rng.sample(G.FORMATS, 3)), key=G.FORMATS.index)])
 
 
-def vsize_via_wrapper(fmt, data, sizes, allowed=None, how='read'):
+def vsize_via_wrapper(fmt, data, sizes, allowed=None, how='read', companion=None):
     """the stream presented through InspectWrapper (read() calls of the given sizes, or iteration over a chunk
     source), closed; virtual_size of the wrapper's inspector for `fmt` and the format the wrapper reports"""
     F = insp_impl.fi()
-    if how == 'read':
+    comp = G.WrapCompanion(companion[0], companion[1], companion[2], allowed) if companion else None
+    if comp:
+        comp.start()
+    if how == 'read' or comp:
         w = F.InspectWrapper(insp_impl.Src(data), allowed_formats=allowed)
         for n in sizes:
             w.read(n)
+            if comp:
+                comp.step()
         w.close()
+        if comp:
+            [insp_impl.show_prop(lambda i=i: i.virtual_size) for i in whitebox.w_inspectors(w)]     # a first look
+            comp.end()
     else:
         w = F.InspectWrapper(iter(insp_impl.cut(data, sizes)), allowed_formats=allowed)
         for _ in w:
@@ -278,6 +287,8 @@ def check_wellformed(ctx, img, expected, fam, fails, what, poll_p=0.35, forced=N
     n = len(img.data)
     rng = ctx.rng
     full = getattr(ctx, '_c07_full', False)
+    if n <= 1 << 20:
+        ctx.__dict__.setdefault('_c07_pool', {}).setdefault(img.fmt, []).append(img.data)
     for tag, sizes in fam:
         ctx.evaluations += 1
         variants = [dict()]
@@ -289,18 +300,28 @@ def check_wellformed(ctx, img, expected, fam, fails, what, poll_p=0.35, forced=N
                 variants.append(dict(feed=feed, ctor=ctor))
         if len(sizes) <= 1200 and (full or rng.random() < 0.25):
             variants.append(dict(wrapper=rng.choice(['read', 'iter']), allowed=allowed_subset(img.fmt, rng)))
+        pool = ctx.__dict__.setdefault('_c07_pool', {}).setdefault(img.fmt, [])
+        if len(sizes) <= 1200 and (full or tag in ('one', 'fixed512') or rng.random() < 0.1):
+            # another object of the same class alive at the same time, fed another image / non-matching data
+            other = rng.choice(pool[-3:] + [bytes(rng.randrange(256) for _ in range(600))])
+            comp = {'content': G.content_field(other), 'sizes': G.pack_sizes(rng.choice([[len(other)], G.fixed(len(other), 512)])),
+                    'mode': rng.choice(G.COMPANION_MODES)}
+            variants.append(dict(companion=comp))
+            if full or rng.random() < 0.3:
+                variants.append(dict(wrapper='read', allowed=allowed_subset(img.fmt, rng), companion=dict(comp, mode=rng.choice(G.COMPANION_MODES))))
         if forced:
             variants.append(forced)
         for v in variants:
             if v:
                 ctx.evaluations += 1
-                ctx.count('search/variant/' + ('intermediate-queries' if 'poll' in v else 'through-InspectWrapper' if 'wrapper' in v
-                                               else 'presentation'))
+                ctx.count('search/variant/' + ('another-live-object' if 'companion' in v else 'intermediate-queries' if 'poll' in v
+                                               else 'through-InspectWrapper' if 'wrapper' in v else 'presentation'))
 
             def vs(sz, v=v):
+                comp = G.companion_of_case(v)
                 if 'wrapper' in v:
-                    return vsize_via_wrapper(img.fmt, img.data, sz, v['allowed'], v['wrapper'])[0]
-                return vsize_of(img.fmt, img.data, sz, v.get('poll'), v.get('feed', 'bytes'), v.get('ctor'))
+                    return vsize_via_wrapper(img.fmt, img.data, sz, v['allowed'], v['wrapper'], comp)[0]
+                return vsize_of(img.fmt, img.data, sz, v.get('poll'), v.get('feed', 'bytes'), v.get('ctor'), comp)
             got = vs(sizes)
             if got == want:
                 continue
@@ -320,14 +341,19 @@ def check_wellformed(ctx, img, expected, fam, fails, what, poll_p=0.35, forced=N
                     'prefix_of': len(parent.data), 'size_structure_ends_at': parent.size_at, 'tag': img.tag}
             case.update(v)
             how = ''
-            if 'poll' in v:
+            if 'companion' in v:
+                k = v['companion']
+                how = '; a second %s alive at the same time, fed %d other bytes %s' % (
+                    'InspectWrapper(allowed_formats=%s)' % v['allowed'] if 'wrapper' in v else img.fmt + ' inspector',
+                    len(G.decode_content(k['content'])), k['mode'])
+            elif 'poll' in v:
                 how = '; observers queried after %s' % ('every chunk' if v['poll'] == 'all' else 'chunks %s' % v['poll'][:10])
             elif 'wrapper' in v:
                 how = '; stream presented through InspectWrapper(allowed_formats=%s) by %s' % (v['allowed'], 'read()' if v['wrapper'] == 'read' else 'iteration')
             elif v:
                 how = '; chunks presented as %s to %s(%s)' % (v['feed'], img.fmt, ', '.join('%s=%s' % kv for kv in sorted(v['ctor'].items())))
             fails.append(Failure(case, {
-                'kind': what + ('' if not v else '-after-intermediate-queries' if 'poll' in v else '-through-InspectWrapper' if 'wrapper' in v
+                'kind': what + ('' if not v else '-with-another-live-object' if 'companion' in v else '-after-intermediate-queries' if 'poll' in v else '-through-InspectWrapper' if 'wrapper' in v
                                 else '-with-other-chunk-objects-or-constructor-arguments'),
                 'what': '%s: virtual_size is %s, the image declares %s (%s; %d of %d bytes presented, chunk sizes %s%s)'
                         % (img.fmt, got, want, img.tag, n, len(parent.data), G.pack_sizes(small)[:8], how)}))
@@ -410,6 +436,10 @@ def search(ctx, seeds, full=False):
             forced, nf0 = None, len(fails)
             if s['kind'] == 'wrap':
                 forced = dict(wrapper='read', allowed=s.get('allowed'))
+                if s.get('companion'):
+                    forced['companion'] = s['companion']
+            elif s.get('companion'):
+                forced = dict(companion=s['companion'])
             elif s.get('feed') or s.get('ctor'):
                 forced = dict(feed=s.get('feed', 'bytes'), ctor=s.get('ctor') or {})
             check_wellformed(ctx, img, img.declared, fam[:1] if forced else fam, fails, 'virtual-size-is-not-the-declared-size',
@@ -534,14 +564,19 @@ def replay(ctx, payload):
             al = case.get('allowed')
             impl = insp_impl.run_wrap(al, None, data, sizes)[0]
             model = ctx.driver.ask(G.wrap_line(case['content'], sizes, al))
-            v, f = vsize_via_wrapper(fmt, data, sizes, al, case['wrapper'])
+            v, f = vsize_via_wrapper(fmt, data, sizes, al, case['wrapper'], G.companion_of_case(case))
+            if case.get('companion'):
+                print('  a second InspectWrapper alive at the same time (%s)' % case['companion']['mode'])
             print('  through InspectWrapper(allowed_formats=%s) by %s: format %s, virtual_size of its %s inspector: %s'
                   % (al, 'read()' if case['wrapper'] == 'read' else 'iteration', f, fmt, v))
             print('  implementation:', impl.split('\t', 2)[-1][-1500:])
             print('  model         :', model.split('\t', 2)[-1][-1500:])
             got.append(v)
         else:
-            impl = G.run_insp_x(fmt, data, sizes, feed=feed, ctor=ctor)
+            comp = G.companion_of_case(case)
+            impl = G.run_insp_x(fmt, data, sizes, feed=feed, ctor=ctor, companion=comp)
+            if comp:
+                print('  a second %s inspector alive at the same time, fed %d other bytes %s' % (fmt, len(comp[0]), comp[2]))
             model = ctx.driver.ask(G.insp_line(fmt, case['content'], sizes, False))
             if feed != 'bytes' or ctor:
                 print('  chunks presented as %s (buffer reused and overwritten after each call) to %s(%s)' % (feed, fmt, ctor or ''))
